@@ -93,7 +93,7 @@ def run(ctx):
     dev = qp.device("default.qubit")
     base = ctx.shard * 100000
     n_cases = ctx.n(200, 6000)
-    min_cases = 10 if ctx.quick else 40
+    min_cases = 10 if ctx.quick else 15
     P = {"X": qp.X, "Y": qp.Y, "Z": qp.Z}
 
     def ref_propagator(Hfun, t0, t1, dim, t_eval=None):
